@@ -27,7 +27,7 @@ type subscriber struct {
 
 type publisher struct {
 	sync.Mutex
-	pubCh       chan requests
+	pubCh       chan map[uint64]*pb.KVList
 	subscribers map[uint64]subscriber
 	nextID      uint64
 	indexer     *trie.Trie
@@ -35,7 +35,7 @@ type publisher struct {
 
 func newPublisher() *publisher {
 	return &publisher{
-		pubCh:       make(chan requests, 1000),
+		pubCh:       make(chan map[uint64]*pb.KVList, 1000),
 		subscribers: make(map[uint64]subscriber),
 		nextID:      0,
 		indexer:     trie.NewTrie(),
@@ -47,11 +47,17 @@ func (p *publisher) listenForUpdates(c *z.Closer) {
 		p.cleanSubscribers()
 		c.Done()
 	}()
-	slurp := func(batch requests) {
+	slurp := func(batch map[uint64]*pb.KVList) {
 		for {
 			select {
-			case reqs := <-p.pubCh:
-				batch = append(batch, reqs...)
+			case updates := <-p.pubCh:
+				for id, kvs := range updates {
+					if b, ok := batch[id]; ok {
+						b.Kv = append(b.Kv, kvs.Kv...)
+					} else {
+						batch[id] = kvs
+					}
+				}
 			default:
 				p.publishUpdates(batch)
 				return
@@ -62,19 +68,31 @@ func (p *publisher) listenForUpdates(c *z.Closer) {
 		select {
 		case <-c.HasBeenClosed():
 			return
-		case reqs := <-p.pubCh:
-			slurp(reqs)
+		case updates := <-p.pubCh:
+			slurp(updates)
 		}
 	}
 }
 
-func (p *publisher) publishUpdates(reqs requests) {
+func (p *publisher) publishUpdates(batchedUpdates map[uint64]*pb.KVList) {
 	p.Lock()
-	defer func() {
-		p.Unlock()
-		// Release all the request.
-		reqs.DecrRef()
-	}()
+	defer p.Unlock()
+	for id, kvs := range batchedUpdates {
+		if s, ok := p.subscribers[id]; ok && s.active.Load() == 1 {
+			s.sendCh <- kvs
+		}
+	}
+}
+
+// batchUpdates matches the entries of the requests against the subscribers and copies what matches.
+// It runs before the writes are acknowledged: once Commit returns, the key and value slices belong
+// to the caller again and may be modified.
+func (p *publisher) batchUpdates(reqs requests) map[uint64]*pb.KVList {
+	p.Lock()
+	defer p.Unlock()
+	if len(p.subscribers) == 0 {
+		return nil
+	}
 	batchedUpdates := make(map[uint64]*pb.KVList)
 	for _, req := range reqs {
 		for _, e := range req.Entries {
@@ -100,12 +118,7 @@ func (p *publisher) publishUpdates(reqs requests) {
 			}
 		}
 	}
-
-	for id, kvs := range batchedUpdates {
-		if p.subscribers[id].active.Load() == 1 {
-			p.subscribers[id].sendCh <- kvs
-		}
-	}
+	return batchedUpdates
 }
 
 func (p *publisher) newSubscriber(c *z.Closer, matches []pb.Match) (subscriber, error) {
@@ -158,9 +171,8 @@ func (p *publisher) deleteSubscriber(id uint64) {
 }
 
 func (p *publisher) sendUpdates(reqs requests) {
-	if p.noOfSubscribers() != 0 {
-		reqs.IncrRef()
-		p.pubCh <- reqs
+	if updates := p.batchUpdates(reqs); len(updates) != 0 {
+		p.pubCh <- updates
 	}
 }
 
